@@ -116,6 +116,10 @@ func SuperviseMain(id string, tier Tier, seed int64) int {
 				cmd := exec.Command(exe, "worker", id, string(tier), fmt.Sprint(seed), fmt.Sprint(w), fmt.Sprint(W),
 					fmt.Sprint(start), runDir, fmt.Sprint(attempt), fmt.Sprint(budget))
 				cmd.Env = append(os.Environ(), "VERIF_SCRATCH="+scratch, "VERIF_ROOT="+root)
+				if ch.Race {
+					// reports go to a log file per process and do not stop the run; the check parses them
+					cmd.Env = append(cmd.Env, "GORACE=halt_on_error=0 history_size=4 log_path="+filepath.Join(runDir, "race"), "VERIF_RACE_LOG="+filepath.Join(runDir, "race"))
+				}
 				cmd.Stdout = errFile
 				cmd.Stderr = errFile
 				if err := cmd.Start(); err != nil {
@@ -157,6 +161,13 @@ func SuperviseMain(id string, tier Tier, seed int64) int {
 				}
 				if code == exitOK {
 					return
+				}
+				if ch.Race && code == 66 {
+					// the race detector's exit status after it reported races; the worker
+					// finished its cases and has already streamed the reports as violations
+					if _, st, ok := readJournal(filepath.Join(runDir, fmt.Sprintf("journal.w%d", w))); ok && st == 3 {
+						return
+					}
 				}
 				// abnormal end: attribute it to the case in flight
 				g, state, ok := readJournal(filepath.Join(runDir, fmt.Sprintf("journal.w%d", w)))
